@@ -22,6 +22,7 @@ func init() {
 
 func runC07(p *eng.Prog, r *eng.Report, tier string) {
 	c := &cx{p, r, tier}
+	c.r.Floor("C07.23", "error edges of stanza parses in the multiplexer", r17FailedParseResultUnused(c, "C07.23"), 1)
 	// C07.19 (= C09.17 / C10.10): no cycle in the lock-order graph: a deadlock between a
 	// writer and Close, or between the serve loop and a requester, ends every guarantee of this property
 	lockOrder(c, "C07.19")
@@ -779,8 +780,9 @@ func c07HandlerEOFIsAFailure(c *cx, id string) {
 // replace it by a random one after the detector has counted the reply).
 func c07IDsComparedAsWritten(c *cx, id string) {
 	n := 0
-	for _, name := range []string{"(*stanzaEncoder).EncodeToken", "(*responseChecker).EncodeToken", "getIDTyp"} {
-		f := c.fn(id, "", name)
+	type anchor struct{ rel, name string }
+	for _, a := range []anchor{{"", "(*stanzaEncoder).EncodeToken"}, {"", "(*responseChecker).EncodeToken"}, {"", "getIDTyp"}, {"stanza", "IQ.StartElement"}, {"stanza", "Message.StartElement"}, {"stanza", "Presence.StartElement"}} {
+		f := c.fn(id, a.rel, a.name)
 		if f == nil {
 			continue
 		}
